@@ -171,6 +171,12 @@ pub struct Model<'a> {
     pub tag: u32,
     pub ordinals: HashMap<(usize, String), u32>,
     pub cache: HashMap<(usize, String), Value>,
+    /// arguments of the cacheable calls made so far, per function (for the don't-care test below)
+    pub cached_args: Vec<(usize, Value, String)>,
+    /// set when a cacheable call met an argument that is `==` to an earlier one but not identical
+    /// (0.0 / -0.0, d1.0 / d1.00) or not `==` to itself (NaN): whether that is "the same argument"
+    /// is not fixed by any statement, so the run is not judged
+    pub ambiguous_cache_key: bool,
     pub log: Vec<MEv>,
     pub sig: u64,
     pub decisions: u32,
@@ -261,6 +267,11 @@ impl<'a> Model<'a> {
                 let spec = &self.fns[fi];
                 let key = canon(&a);
                 if spec.cacheable {
+                    #[allow(clippy::eq_op)]
+                    if a != a || self.cached_args.iter().any(|(f, v, k)| *f == fi && *v == a && *k != key) {
+                        self.ambiguous_cache_key = true;
+                    }
+                    self.cached_args.push((fi, a.clone(), key.clone()));
                     if let Some(v) = self.cache.get(&(fi, key.clone())) {
                         if effectful_arg {
                             self.cov.bump("hit.cached_call_whose_argument_made_calls");
@@ -480,6 +491,8 @@ pub fn check(scn: &Scenario, c: &mut Counters) -> Verdict {
         tag: scn.tasks[0].tag,
         ordinals: HashMap::new(),
         cache: HashMap::new(),
+        cached_args: vec![],
+        ambiguous_cache_key: false,
         log: vec![],
         sig: 0,
         decisions: 0,
@@ -499,6 +512,10 @@ pub fn check(scn: &Scenario, c: &mut Counters) -> Verdict {
     }
     if let Some(h) = model.harness_error.take() {
         return Verdict::harness(h);
+    }
+    if model.ambiguous_cache_key {
+        c.bump("skipped.ambiguous_cache_key");
+        return Verdict::skip("a cacheable call met an argument equal-but-not-identical to an earlier one (don't-care zone)".into());
     }
     let mlog = std::mem::take(&mut model.log);
     let (decisions, cuts, msig) = (model.decisions, model.cuts, model.sig);
